@@ -72,6 +72,10 @@ def run(prog):
                 errs.append("the node is not entered into the visited table after its row was appended")
             else:
                 idx = strip(ins[0].args[2])
+                if idx[0] == "agg" and idx[3] == "Ptr" and "index" in (idx[5] or ()):
+                    # the table may store the finished pointer (index plus a flag): the row number inside it is what counts
+                    # here; whether the flag may be re-used is CP's question, not this rule's
+                    idx = strip(idx[4][idx[5].index("index")])
                 s_ = show(idx)
                 if not pre_form and not (s_.startswith("(len(arg%d) Sub" % NP[1]) and s_.rstrip(").0").endswith("1")):
                     errs.append("the visited table stores %s for the node, not nodes.len() - 1 taken after the push: shared "
